@@ -70,6 +70,7 @@ fn main() {
             14 => m_cstr::run(&hdr[1..], &rows_in, &mut mon),
             15 => m_cb::run(&hdr[1..], &rows_in, &mut mon),
             19 => m_waker::run(&hdr[1..], &rows_in, &mut mon),
+            119 => m_waker::run_threads(&hdr[1..], &rows_in, &mut mon),
             110 => m_arc::run_threads(&hdr[1..], &rows_in, &mut mon),
             21 => m_box::run(&hdr[1..], &rows_in, &mut mon),
             _ => vec![vec![-3]],
